@@ -15,6 +15,22 @@ type regSafe struct{ n int }
 
 func (r regSafe) String() string { return fmt.Sprintf("RS%d", r.n) }
 
+// F6: nested panic escaping a nested Print.
+type pv struct{}
+
+func (pv) String() string { panic("inner-boom") }
+
+type px struct{}
+
+func (px) String() string { panic(pv{}) }
+
+type sf struct{}
+
+func (sf) SafeFormat(w redact.SafePrinter, _ rune) {
+	w.UnsafeString("a")
+	w.Print("bbbbbbbb", px{})
+}
+
 type f struct{}
 
 func (f) Format(s fmt.State, verb rune) {
@@ -47,6 +63,7 @@ func main() {
 		redact.JoinTo(&b2, ",", "ab")
 		fmt.Printf("F2 string: %q\n", b2.RedactableString())
 	}()
+	fmt.Printf("F6: %q\n", redact.Sprintf("x %v y", sf{}))
 	redact.RegisterSafeType(reflect.TypeOf(regSafe{}))
 	fmt.Printf("F5: %q %q\n", redact.Sprint([]interface{}{regSafe{1}}), redact.Sprint(map[string]interface{}{"k": regSafe{2}}))
 	s, e := redact.HelperForErrorf("%w %w", fmt.Errorf("boom"), 5)
